@@ -252,7 +252,7 @@ func collectTVarFTypeWithSet(visited SSet, ft FType) []string {
 				}, _r0)
 			})), (func(_r0 []FType) []string { return slice.Collect(recurse, _r0) }))
 			tres := frt.Pipe(rt.Targs, (func(_r0 []FType) []string { return slice.Collect(recurse, _r0) }))
-			return slice.Append(fres, tres)
+			return slice.Append(tres, fres)
 		}))
 	case FType_FUnion:
 		ut := _v9.Value
